@@ -7,10 +7,11 @@
     tables do not; `get_features_matching`, `get_records_matching` and `num_matches` take an
     `on_alignment` argument.
 
-  Mirrors `core/annotation_db.py`: `get_features_matching` l.845-879, `get_records_matching`
-  l.816-838, `num_matches` l.881-901, `subset` l.1148-1187, `GenbankAnnotationDb.add_records`
+  Mirrors `core/annotation_db.py`: `get_features_matching` l.849-883, `get_records_matching`
+  l.816-842, `num_matches` l.885-910 (as repaired by 26f741b86), `subset` l.1148-1187, `GenbankAnnotationDb.add_records`
   l.1420-1452, `GenbankAnnotationDb.get_feature_children` / `get_feature_parent` l.1485-1583.
-  The small decision expressions (which tables are visited, the normalisation of the bounds in
+  The small decision expressions (which tables are visited, which table keeps `on_alignment` in its copy
+  of the arguments, the normalisation of the bounds in
   `subset`, the coordinate tests of children / parent) are NOT written here: they are
   `Gen/C17Query.lean`, re-translated from the source on every run.
 -/
@@ -58,30 +59,41 @@ AND the window -/
 def xRowMatches (q : Query) (oa : Option Bool) (r : XRec) : Bool :=
   (columnConds q).all (fun c => c r.row) && oaCond oa r && xWindow q r
 
+/-- one table of a query: the table called `n` gets ITS OWN copy of the arguments, from which
+`on_alignment` is dropped unless `keep n` (generated from the loop body: only `user` keeps it) -/
+def tableQuery (keep : String → Bool) (db : XDb) (q : Query) (oa : Option Bool) (n : String) : List XRec :=
+  (db.table n).filter (xRowMatches q (if keep n then oa else none))
+
+/-- a gff / gb table that is still asked for `on_alignment` has no such column: `OperationalError` -/
+def oaReachesMain (keep : String → Bool) (oa : Option Bool) (names : List String) : Bool :=
+  oa.isSome && names.any fun n => n != "user" && keep n
+
 /-- the rows `get_features_matching` selects: the tables are `["user"] if on_alignment else self.table_names`
-(generated); every table gets ITS OWN copy of the arguments, from which a table other than `user`
-drops `on_alignment`.  `get_features_matching` then builds the feature dict of every selected row, reading
+(generated); every table gets its own copy of the arguments (`featuresKeepOa`, generated).
+`get_features_matching` then builds the feature dict of every selected row, reading
 `[tuple(c) for c in result["spans"]]`, which raises `TypeError` on a NULL blob. -/
 def selectFeaturesX (db : XDb) (q : Query) (oa : Option Bool) : List XRec :=
-  (featuresTables oa (tableNames db.kind)).flatMap fun n =>
-    (db.table n).filter (xRowMatches q (if n = "user" then oa else none))
+  (featuresTables oa (tableNames db.kind)).flatMap (tableQuery featuresKeepOa db q oa)
 
 def getFeaturesMatchingX (db : XDb) (q : Query) (oa : Option Bool) : Except Err (List XRec) :=
   let sel := selectFeaturesX db q oa
-  if sel.all (·.located) then .ok sel else .error .typeError
+  if oaReachesMain featuresKeepOa oa (featuresTables oa (tableNames db.kind)) then .error .operationalError
+  else if sel.all (·.located) then .ok sel else .error .typeError
 
-/-- `get_records_matching`: the same tables, but every table gets ALL the arguments, so a gff / gb
-table is asked for a column it does not have (`OperationalError`) -/
+/-- `get_records_matching` (as repaired by 26f741b86): the same tables, every table its own copy of the
+arguments (`recordsKeepOa`, generated); the whole row is returned, NULL spans included -/
 def getRecordsMatchingX (db : XDb) (q : Query) (oa : Option Bool) : Except Err (List XRec) :=
   let names := recordsTables oa (tableNames db.kind)
-  if oa.isSome && names.any (· != "user") then .error .operationalError
-  else .ok (names.flatMap fun n => (db.table n).filter (xRowMatches q oa))
+  if oaReachesMain recordsKeepOa oa names then .error .operationalError
+  else .ok (names.flatMap (tableQuery recordsKeepOa db q oa))
 
-/-- `num_matches`: always every table, every argument to every table -/
+/-- `num_matches` (as repaired by 26f741b86): `["user"] if on_alignment else self.table_names`
+(`countTables`, generated), every table its own copy of the conditions (`countKeepOa`, generated) -/
 def numMatchesX (db : XDb) (q : Query) (oa : Option Bool) : Except Err Nat :=
-  if oa.isSome && (tableNames db.kind).any (· != "user") then .error .operationalError
-  else .ok ((tableNames db.kind).flatMap fun n =>
-    (db.table n).filter fun r => countMatches q r.row && oaCond oa r).length
+  let names := countTables oa (tableNames db.kind)
+  if oaReachesMain countKeepOa oa names then .error .operationalError
+  else .ok (names.flatMap fun n =>
+    (db.table n).filter fun r => countMatches q r.row && oaCond (if countKeepOa n then oa else none) r).length
 
 /-- `subset(**kwargs)`: the bounds go through the generated normalisation, then the same WHERE
 expression table by table (no `on_alignment` argument); rows are copied whole, NULLs included -/
